@@ -21,6 +21,13 @@ Theorem C03_no_forbidden_reachable :
   forall e f, In e entries -> In f forbidden -> ~ path calls e f.
 Proof. exact no_forbidden_reachable. Qed.
 
+(* the verified search terminates within its fuel on this graph and computes
+   exactly the set of functions some RT entry point can reach *)
+Theorem C03_reachable_set_exact :
+  exists s, reach direct indirect_table excluded entries = Some s /\
+    forall x, memb x s = true <-> exists e, In e entries /\ path calls e x.
+Proof. exact reachable_set_exact. Qed.
+
 (* closed world: whatever an RT entry point can reach is either a function
    whose body is in the graph or one of the listed libc leaf functions
    (memcpy strlen strcmp ... strtol strtod) *)
